@@ -4,6 +4,7 @@ import (
 	"errors"
 	"fmt"
 	"regexp"
+	"sort"
 )
 
 var reIdentifiers = regexp.MustCompile("^[a-zA-Z0-9_]+$")
@@ -29,15 +30,27 @@ func SetAutoescape(newValue bool) {
 type Context map[string]any
 
 func (c Context) checkForValidIdentifiers() *Error {
-	for k, v := range c {
+	// in sorted order: with several offending keys the same one is reported
+	// every time
+	for _, k := range c.sortedKeys() {
 		if !reIdentifiers.MatchString(k) {
 			return &Error{
 				Sender:    "checkForValidIdentifiers",
-				OrigError: fmt.Errorf("context-key '%s' (value: '%+v') is not a valid identifier", k, v),
+				OrigError: fmt.Errorf("context-key '%s' (value: '%+v') is not a valid identifier", k, c[k]),
 			}
 		}
 	}
 	return nil
+}
+
+// sortedKeys returns the context's keys in sorted order.
+func (c Context) sortedKeys() []string {
+	keys := make([]string, 0, len(c))
+	for k := range c {
+		keys = append(keys, k)
+	}
+	sort.Strings(keys)
+	return keys
 }
 
 // Update updates this context with the key/value-pairs from another context.
